@@ -57,7 +57,7 @@ func NewCandidatePeerReflexive(config *CandidatePeerReflexiveConfig) (*Candidate
 			priorityOverride:   config.Priority,
 			relatedAddress: &CandidateRelatedAddress{
 				Address: config.RelAddr,
-				Port:    config.RelPort,
+				Port:    relatedPort(config.RelAddr, config.RelPort),
 			},
 		},
 	}
